@@ -14,6 +14,7 @@ mod reqfam;
 mod strfam;
 mod asyncfam;
 mod runfam;
+mod runnerfam;
 
 use util::*;
 
@@ -49,11 +50,13 @@ fn main() {
         "C07" => runfam::run_c07(&mut ctx),
         "C08" => runfam::run_c08(&mut ctx),
         "C11" => runfam::run_c11(&mut ctx),
+        "C13" => runnerfam::run_c13(&mut ctx),
         "C12" => runfam::run_c12(&mut ctx),
         "C14" => {
             let mut log = Log::new(&ctx.dir); let mut im = exec::Impl::new();
             let mut or = Oracle::new("C14", "(a) shutdown requested before every poll index of scripted connections (before the first read, between requests, during the preamble, during the handler, during close); (b) histories of token drops interleaved with polls of the shutdown future, 0..3 live tokens, with counting wakers. Non-trivial: all; distinct by case");
             runfam::c14_conn(&mut ctx, &mut log, &mut im, &mut or);
+            runnerfam::c14_wg(&mut ctx, &mut log, &mut im, &mut or);
             or.count_n("corr_ops", log.nops); log.finish(); or.write(&ctx.dir);
         }
         "C09" => asyncfam::run_c09(&mut ctx),
